@@ -205,13 +205,18 @@ def run(chk):
     chk.ob("R4 keys", "R4|Client::register|alg-from-attested-key", bool(okalg), site, "publicKeyAlgorithm = %s" % flow.term_str(alg)[:200])
     # R6 (client side): default algorithms
     pp = dict(req[3]).get("pub_key_cred_params") if req[0] == "agg" else None
-    ok6 = pp is not None and pp[0] == "phi" and any(is_call(x, "PublicKeyCredentialParameters::default_algorithms") for x in pp[1]) and any(x[0] == "field" and x[2] == "pub_key_cred_params" for x in pp[1])
-    # which edge: default only when the request list is empty
-    edge_ok = False
-    for b3, t in names.calls_to(reg, "PublicKeyCredentialParameters::default_algorithms"):
-        conds = flow.conditions(p, reg, b3, T)
-        edge_ok = any(t2[0] == "call" and t2[1].endswith("is_empty") and has(t2, lambda x: isinstance(x, tuple) and len(x) == 3 and x[0] == "field" and x[2] == "pub_key_cred_params") and flow.lab_true(l) for sb, l, t2 in conds)
-    chk.ob("R6 algorithm", "R6|Client::register|defaults-iff-empty", bool(ok6 and edge_ok), where(reg, call_bb), "pubKeyCredParams = %s ; defaults only on the is_empty edge: %s" % (flow.term_str(pp)[:160] if pp else "?", edge_ok))
+    # the list sent is selected by an emptiness test of the request's list: empty -> the WebAuthn defaults, non-empty -> the list
+    is_req_list = lambda x: isinstance(x, tuple) and len(x) == 3 and x[0] == "field" and x[2] == "pub_key_cred_params"
+    ok6 = False
+    if pp is not None and pp[0] == "gamma":
+        sel = {}
+        for l, v in pp[2]:
+            e = flow.emptiness_test(pp[1], l)
+            if e is not None and is_req_list(e[0]):
+                sel[e[1]] = v
+        ok6 = set(sel) == {True, False} and is_call(sel[True], "PublicKeyCredentialParameters::default_algorithms") and is_req_list(sel[False])
+    chk.ob("R6 algorithm", "R6|Client::register|defaults-iff-empty", bool(ok6), where(reg, call_bb),
+           "pubKeyCredParams sent = %s ; the defaults are chosen exactly when the request list is empty: %s" % (flow.term_str(pp)[:200] if pp else "?", ok6))
 
     # ---------------- authenticator side
     Tm = flow.Terms(p, mc)
